@@ -672,9 +672,115 @@ def gen_auto(repo):
     return '\n'.join(out) + '\n'
 
 
+# ----------------------------------------------------------------------------------------- T-dec: matrix predicates
+# library expressions of pymoto/solvers/matrix_checks.py -> fields of Model/MatrixChecks.v : atoms
+CHECK_ATOMS = {
+    'sps.issparse(A)': 'at_sparse',
+    'isinstance(A, cvxopt.spmatrix) if _has_cvxopt else False': 'at_cvxopt',
+    'isinstance(A, sps.dia_matrix)': 'at_isdia',
+    'np.iscomplexobj(A)': 'at_cplxobj',
+    "A.typecode == 'z'": 'at_cvx_z',
+    'np.allclose((A - sps.spdiags(A.diagonal(), 0, *A.shape)).data, 0.0)': 'at_sp_offdiag0',
+    'max(abs(A.I - A.J)) == 0': 'at_cvx_offdiag0',
+    'np.allclose(A, np.diag(np.diag(A)))': 'at_dn_offdiag0',
+    'np.allclose((A - A.T).data, 0)': 'at_sp_sym',
+    'np.isclose(max(abs(A - A.T)), 0.0)': 'at_cvx_sym',
+    'np.allclose(A, A.T)': 'at_dn_sym',
+    'np.allclose((A - A.T.conj()).data, 0)': 'at_sp_herm',
+    'np.isclose(max(abs(A - A.ctrans())), 0.0)': 'at_cvx_herm',
+    'np.allclose(A, A.T.conj())': 'at_dn_herm',
+}
+CHECK_FUNCS = ['is_cvxopt_spmatrix', 'matrix_is_sparse', 'matrix_is_complex', 'matrix_is_diagonal',
+               'matrix_is_symmetric', 'matrix_is_hermitian']
+
+
+class PredEmitter:
+    """boolean functions of one matrix argument `A`: if/elif/else, return, and/or/not, calls of the sibling predicates,
+    tests on the offsets array of a dia_matrix; every other expression must be a known atom (fail-closed)."""
+
+    def __init__(self, known):
+        self.known = known       # sibling predicates already emitted
+
+    def fail(self, node, why=''):
+        raise Unsupported(f'T-dec(matrix_checks): unsupported {type(node).__name__} {why}: {ast.unparse(node)[:140]}')
+
+    @staticmethod
+    def intconst(n):
+        if isinstance(n, ast.Constant) and type(n.value) is int:
+            return n.value
+        if isinstance(n, ast.UnaryOp) and isinstance(n.op, ast.USub) and isinstance(n.operand, ast.Constant) \
+                and type(n.operand.value) is int:
+            return -n.operand.value
+        return None
+
+    def ev(self, n):
+        src = ast.unparse(n)
+        if src in CHECK_ATOMS:
+            return f'({CHECK_ATOMS[src]} a)'
+        if isinstance(n, ast.Constant) and isinstance(n.value, bool):
+            return 'true' if n.value else 'false'
+        if isinstance(n, ast.BoolOp):
+            op = ' && ' if isinstance(n.op, ast.And) else ' || '    # short-circuit = strict on total booleans
+            return '(' + op.join(self.ev(v) for v in n.values) + ')'
+        if isinstance(n, ast.UnaryOp) and isinstance(n.op, ast.Not):
+            return f'(negb {self.ev(n.operand)})'
+        if isinstance(n, ast.Call) and isinstance(n.func, ast.Name) and n.func.id in CHECK_FUNCS:
+            if n.func.id not in self.known or [ast.unparse(a) for a in n.args] != ['A'] or n.keywords:
+                self.fail(n, 'sibling call')
+            return f'(gen_{n.func.id} a)'
+        if isinstance(n, ast.Compare) and len(n.ops) == 1 and isinstance(n.ops[0], (ast.Eq, ast.NotEq)):
+            l, r = n.left, n.comparators[0]
+            k = self.intconst(r)
+            e = None
+            if k is not None and ast.unparse(l) == 'len(A.offsets)':
+                e = f'(offs_len_is (at_offsets a) ({k})%Z)'
+            elif k is not None and isinstance(l, ast.Subscript) and ast.unparse(l.value) == 'A.offsets':
+                i = self.intconst(l.slice)
+                if i is None or i < 0:
+                    self.fail(n, 'offsets index')
+                e = f'(offs_nth_is (at_offsets a) {i} ({k})%Z)'
+            if e is not None:
+                return e if isinstance(n.ops[0], ast.Eq) else f'(negb {e})'
+        self.fail(n, 'expression')
+
+    def block(self, stmts):
+        stmts = [s for s in stmts if not (isinstance(s, ast.Expr) and isinstance(s.value, ast.Constant)
+                                          and isinstance(s.value.value, str))]
+        if not stmts:
+            raise Unsupported('T-dec(matrix_checks): a path does not return')
+        s, rest = stmts[0], stmts[1:]
+        if isinstance(s, ast.Return):
+            if s.value is None:
+                self.fail(s, 'empty return')
+            return self.ev(s.value)
+        if isinstance(s, ast.If):
+            return f'(if {self.ev(s.test)} then {self.block(s.body + rest)} else {self.block(s.orelse + rest)})'
+        self.fail(s, 'statement')
+
+
+def gen_checks(repo):
+    tree, _ = parse_file(os.path.join(repo, 'pymoto/solvers/matrix_checks.py'))
+    out = ['(* GENERATED by tools/gen_C05.py from pymoto/solvers/matrix_checks.py -- do not edit *)',
+           'From Coq Require Import ZArith List Bool.', 'From Pymoto Require Import Model.MatrixChecks.', '']
+    known = []
+    for name in CHECK_FUNCS:
+        fn = find_func(tree, name)
+        if [a.arg for a in fn.args.args] != ['A'] or fn.args.defaults or fn.args.kwonlyargs or fn.args.vararg or fn.args.kwarg:
+            raise Unsupported(f'T-dec(matrix_checks): signature of {name} changed')
+        term = PredEmitter(list(known)).block(fn.body)
+        out.append(f'Definition gen_{name} (a : atoms) : bool :=\n  {term}.\n')
+        known.append(name)
+    # the names the decision procedure and the solvers use must be these functions (no shadowing definitions)
+    defs = [s.name for s in tree.body if isinstance(s, ast.FunctionDef)]
+    if sorted(defs) != sorted(CHECK_FUNCS):
+        raise Unsupported('T-dec(matrix_checks): set of functions in matrix_checks.py changed: ' + repr(defs))
+    return '\n'.join(out)
+
+
 if __name__ == '__main__':
     import sys
     repo = sys.argv[1] if len(sys.argv) > 1 else '/repo'
     print(gen_dense(repo))
     print(gen_cg(repo))
     print(gen_auto(repo))
+    print(gen_checks(repo))
